@@ -449,6 +449,8 @@ impl<'a> Pipe<'a> {
             rm_cwd: false,
             stdout: crate::proc::Stdout::Capture,
             stderr: crate::proc::Stdout::Capture,
+            exe: None,
+            umask: None,
         };
         stats.bump("producer_processes");
         run_zerv(self.ctx, self.rd, &call, stats)
@@ -468,6 +470,8 @@ impl<'a> Pipe<'a> {
             rm_cwd: false,
             stdout: crate::proc::Stdout::Capture,
             stderr: crate::proc::Stdout::Capture,
+            exe: None,
+            umask: None,
         };
         stats.bump("consumer_processes");
         run_zerv(self.ctx, self.rd, &call, stats)
